@@ -118,6 +118,11 @@ CancelEndsCall == result = CANCELLED => (status = "raised" /\ calls = Len(hist))
 (* cancellation and other non-Exception errors are never retried *)
 NeverRetryBase == \A i \in 1..Len(hist) : hist[i] \in {"cancelled", "base"} => i = Len(hist) /\ status = "raised"
 
+(* Retry refines its counting core (RetryCore.tla, proved for EVERY limit by Apalache's inductive check): outcomes the
+   configuration catches are the core's "caught", everything else that is not a success is "final" *)
+Core == INSTANCE RetryCore WITH limit <- cfg.limit
+RefinesCore == Core!Spec
+
 (* exactly one pause between consecutive attempts, of the configured length *)
 PausesRight ==
   /\ Len(pauses) = attempt
